@@ -101,11 +101,25 @@ func GenGitLog(t *tape.Tape) string {
 				live[f] = true
 			}
 		}
+		if t.Bool(1, 6) {
+			// a deleted symbolic link: its summary line carries mode 120000
+			summary = append(summary, " delete mode 120000 "+g_links[t.Pick(len(g_links))])
+		}
 		b = append(b, summary...)
 		b = append(b, "")
 	}
-	return strings.Join(b, "\n") + "\n"
+	text := strings.Join(b, "\n") + "\n"
+	if t.Bool(1, 3) {
+		// the shape `coca git` really reads: the last commit is not followed by a blank line
+		text = strings.TrimRight(text, "\n")
+		if t.Bool(1, 2) {
+			text += "\n delete mode 120000 " + g_links[t.Pick(len(g_links))]
+		}
+	}
+	return text
 }
+
+var g_links = []string{"current", "docs/latest", "bin/tool"}
 
 // TreeFile is one file of a small multi-language tree (carrier for the line-count report).
 type TreeFile struct {
